@@ -158,7 +158,7 @@ Definition caps_step (caps : bytes) (acc : cdict) : res (option (bytes * cdict))
       Ok (Some (next, fold_left (fun d r => cdict_update d (fst r) (CBool (rpred_eval (snd r) value))) rs acc))
   | None =>
     if raw_id =? CapabilityId_TEMPERATURES then
-      if size <? 6 then Ok (Some (caps, acc))       (* `continue` without advancing *)
+      if size <? 6 then Ok (Some (next, acc))       (* undersized: skipped (fix 45d1acc advances first) *)
       else
         do c3 <- idx caps 3; do c4 <- idx caps 4; do c5 <- idx caps 5; do c6 <- idx caps 6;
         do c7 <- idx caps 7; do c8 <- idx caps 8;
